@@ -62,6 +62,7 @@ LIST_API = {
     "count": dict(params=["value"], kind="read"),            # inherited: Sequence.count (generator + sum, [L-GENSUM])
     # Sequence.index(value, start, stop) with arbitrary integer bounds (negative ones re-load for len(self))
     "index3": dict(params=["value", "start", "stop"], kind="read", method="index", ints=["start", "stop"]),
+    "index2": dict(params=["value", "start"], kind="read", method="index", ints=["start"]),
     "__call__": dict(params=[], kind="read"),
     "__eq__": dict(params=["other"], kind="read"),
     "__lt__": dict(params=["other"], kind="read"),
@@ -194,14 +195,14 @@ class Expect:
                 self._from(T["index"], [a["value"]])
             elif meth == "count":
                 self._from(T["count"], [a["value"]])
-            elif meth == "index3":
+            elif meth in ("index3", "index2"):
                 # list.index(x, start, stop): negative bounds are taken relative to the length (start clamped at 0);
                 # the least i with lo <= i < hi, 0 <= i < len, element i is / == x; ValueError if there is none
-                x_, s_, e_ = a["value"], a["start"], a["stop"]
+                x_, s_, e_ = a["value"], a["start"], a.get("stop")
                 def bounds(v):
                     n_ = bs.list_len(v)
                     lo = z3.If(s_ < 0, z3.If(n_ + s_ >= 0, n_ + s_, z3.IntVal(0)), s_)
-                    hi = z3.If(e_ < 0, e_ + n_, e_)
+                    hi = n_ if e_ is None else z3.If(e_ < 0, e_ + n_, e_)
                     return VInt(lo), VInt(hi)
                 self.raises = [("ValueError", lambda v: z3.Not(bs.list_contains_in(v, x_, *bounds(v))))]
                 self.result = lambda v: bs.list_index_in(v, x_, *bounds(v))
